@@ -92,7 +92,11 @@ Ltac tp_unfold :=
        det minv mmul mdivs mmuls madd m11 m12 m21 m22 V1 I1 V2 I2] in *.
 (* one equation between field expressions that follows from polynomial
    hypotheses: clear denominators, then Groebner certificate *)
-Ltac eq_from_hyps := first [ fsolve | (field_simplify_eq; [ knsatz | nz ]) | knsatz ].
+Ltac gb := subst_zero_vars; first [ knsatz | wit_one_then knsatz | wit_all; knsatz ].
+Ltac eq_from_hyps :=
+  first [ fsolve
+        | (field_simplify_eq; [ gb | nz ])
+        | gb ].
 
 Lemma mat_eq {K : fld} (a b c d a' b' c' d' : K) :
   a = a' -> b = b' -> c = c' -> d = d' -> Mat a b c d = Mat a' b' c' d'.
